@@ -715,6 +715,8 @@ SEEDS = [
     "select * from int1.t1 t join mindsdb.pred.3 m where m.mc1 = (select max(x) from int2.t9) and t.tc1 in (select x from int2.t9)",
     "select * from (select * from int1.t1 a join int2.t2 b on a.id = b.id where a.q = 1) s join mindsdb.pred m where s.tc1 = 1 and m.mc1 = 2 using partition_size=3",
     "select * from int1.t1 t join (select * from int1.t1 join mindsdb.pred) s on t.id = s.id join proj.pred2 m where t.tc1 in (select a.x from int1.t1 a join int2.t2 b on a.id = b.id) and m.mc1 = (select max(z) from int2.t8)",
+    "select * from int1.T3 as t0 right join proj.pred2 as m1 where t0.TC3 is null and t0.tc1 = 1 and t0.tc2 is not null",
+    "select * from int1.t1 t left join int2.t2 s on t.id = s.id full join (select * from int2.tab4) z join mindsdb.pred m where t.tc1 is null and s.tc1 is null and z.tc1 is null and s.tc2 is not null",
     "select * from int1.t1 t join int2.t2 s on t.id = s.id join mindsdb.pred m where t.tc1 between 1 and s.tc2 and s.tc1 between t.tc2 and 5",
     "select * from int1.t1 t join mindsdb.pred m where t.tc1 between 1 and m.mc1 and t.tc2 between m.mc2 and 3 and m.mc1 between 1 and t.tc1",
     "select * from int1.t1 t join mindsdb.pred m where t.tc1 between 1 and tc2 and t.tc2 between t.id + 1 and abs(t.id) and t.id between 1 and 2",
